@@ -11,4 +11,6 @@ INVARIANT OnlyMatching
 INVARIANT OrderWithinPacket
 INVARIANT IgnoreStops
 INVARIANT WireIffNotSuppressed
+INVARIANT ReactionBetweenStages
+INVARIANT IgnoredNeverReacts
 INVARIANT EmitRows
